@@ -265,6 +265,7 @@ RULE = (
     "n<=40 in thorough), affine-combination law, round trips with L1 None/scalar/per-row, centred and un-centred, scale invariance "
     "lam in [1e-6,1e6]. Non-trivial = a point with an exact zero coordinate or a negative last coordinate, or dimension >= 5 "
     "(spherical); a round trip actually exercised or n >= 5 (barycentric)."
+    " The cartesian points are also handed over as nested lists and int64 arrays."
 )
 
 PROP = Prop(
